@@ -4,6 +4,18 @@ import json, os, sys
 root = os.path.dirname(os.path.dirname(os.path.abspath(__file__)))
 claims = json.load(open(os.path.join(root, "tools", "claims.json")))
 props = [json.loads(l)["id"] for l in open(os.path.join(root, "properties.jsonl")) if l.strip()]
+def hook_commits():
+    """every /repo commit whose subject starts with 'verif' (comment-only contract files behind the build tag); falls
+    back to the list recorded in claims.json when /repo has no git history at hand"""
+    import subprocess
+    try:
+        log = subprocess.run(["git", "-C", "/repo", "log", "--format=%h %s"], capture_output=True, text=True, check=True).stdout.splitlines()
+        hs = [l.split()[0] for l in log if l.split(" ", 1)[1].startswith("verif")]
+        if hs:
+            return list(reversed(hs))
+    except Exception:
+        pass
+    return claims.get("_hook_commits", [])
 checks, na = [], []
 for pid in props:
     c = claims.get(pid)
@@ -28,7 +40,7 @@ m = {
         "guard": "verif",
         "enable": "go/packages loads /repo with -tags=verif; the only guarded files are comment-only zz_contracts_verif.go contract files",
         "baseline_off_cmd": json.load(open("/root/.vp/BASELINE.json"))["cmd"],
-        "source_commits": claims.get("_hook_commits", []),
+        "source_commits": hook_commits(),
         "add_only": True,
     },
     "engines": [{"name": "govc", "path": "/verif/govc", "serves_properties": [c["property_id"] for c in checks],
